@@ -34,6 +34,7 @@ import (
 	"github.com/nuts-foundation/go-stoabs"
 	"github.com/nuts-foundation/go-stoabs/bbolt"
 	"github.com/nuts-foundation/nuts-node/audit"
+	"github.com/nuts-foundation/nuts-node/core"
 	nutsCrypto "github.com/nuts-foundation/nuts-node/crypto"
 	"github.com/nuts-foundation/nuts-node/crypto/hash"
 	"github.com/nuts-foundation/nuts-node/network/dag"
@@ -515,6 +516,7 @@ type vScenario struct {
 }
 
 type vNode struct {
+	dir    string
 	id     int
 	cfg    vNodeCfg
 	p      *protocol
@@ -536,6 +538,15 @@ func (n *vNode) stLine() string {
 }
 
 func (s *vSim) newNode(id int, cfg vNodeCfg, dir string) *vNode {
+	n := &vNode{id: id, cfg: cfg, dir: dir, conns: map[int]*vConn{}, list: &vConnList{}, added: map[hash.SHA256Hash]bool{}}
+	s.open(n)
+	return n
+}
+
+// open (re)opens the node's bbolt file and builds state + protocol on it, as a process start does: NewState, Configure
+// (loads the clock and the XOR/IBLT trees from disk), protocol New + Configure
+func (s *vSim) open(n *vNode) {
+	id, cfg, dir := n.id, n.cfg, n.dir
 	path := filepath.Join(dir, fmt.Sprintf("node%d.db", id))
 	store, err := bbolt.CreateBBoltStore(path, stoabs.WithNoSync())
 	if err != nil {
@@ -545,7 +556,10 @@ func (s *vSim) newNode(id int, cfg vNodeCfg, dir string) *vNode {
 	if err != nil {
 		panic(err)
 	}
-	n := &vNode{id: id, cfg: cfg, st: st, store: store, conns: map[int]*vConn{}, list: &vConnList{}, added: map[hash.SHA256Hash]bool{}}
+	if err := st.Configure(core.ServerConfig{}); err != nil {
+		panic(err)
+	}
+	n.st, n.store = st, store
 	_, err = st.Notifier("verif", func(ev dag.Event) (bool, error) {
 		if !n.added[ev.Hash] {
 			n.added[ev.Hash] = true
@@ -585,7 +599,34 @@ func (s *vSim) newNode(id int, cfg vNodeCfg, dir string) *vNode {
 	p.routines = new(sync.WaitGroup)
 	p.connectionList = n.list
 	n.p = p
-	return n
+}
+
+// restart: stop the process (volatile state is lost), start it again on the same database, re-establish the connections
+func (s *vSim) restart(n *vNode) string {
+	n.close()
+	s.open(n)
+	for _, cc := range s.sc.Conns {
+		if cc.At == n.id {
+			if c := n.conns[cc.Peer]; c != nil && c.connected {
+				n.p.connectionStateCallback(c.peer, transport.StateConnected, n.p)
+			}
+		}
+	}
+	// the digests loaded from disk must be those of the stored set
+	x := hash.EmptyHash()
+	var lc uint32
+	for r := range n.added {
+		x = x.Xor(r)
+		if t := s.u.byRef[r]; t != nil && t.clock > lc {
+			lc = t.clock
+		}
+	}
+	gx, glc := n.xorLC()
+	tag := ""
+	if !gx.Equals(x) || glc != lc {
+		tag = " !digest-differs-from-stored-set"
+	}
+	return "restart " + n.stLine() + tag
 }
 
 func (n *vNode) close() {
@@ -640,6 +681,7 @@ type vSim struct {
 	dc       map[string]*[3]int // bucket -> [attempts, success, exact-when-success]
 	injected map[hash.SHA256Hash]bool // refs of invalid transactions shown to any node
 	deliveries int
+	restartAt   map[int]int // fair-suffix round -> node to restart before it
 	goid        string
 	asyncCh     chan vAsyncReq
 	expectAsync int
@@ -1246,6 +1288,8 @@ func (s *vSim) exec(op *vOp) {
 		}
 		_, _, _, _, hasQ := gossip.VerifQueue(n.p.gManager, c.peer)
 		line = fmt.Sprintf("conn connected=%v queue=%v", c.connected, hasQ)
+	case "restart":
+		line = s.restart(s.nodes[op.N])
 	case "observe":
 		line = s.observe()
 	default:
@@ -1301,6 +1345,7 @@ func (s *vSim) startScenario(sc vScenario, dir string) {
 	s.cidNext = map[int]int{}
 	s.injected = map[hash.SHA256Hash]bool{}
 	s.curSent = nil
+	s.restartAt = nil
 	s.deliveries = 0
 	grpc.MaxMessageSizeInBytes = sc.MaxMsg
 	_ = os.MkdirAll(dir, 0o755)
@@ -1409,6 +1454,11 @@ type vVerdict struct {
 // nodes agree; bounded by maxRounds
 func (s *vSim) fairSuffix(maxRounds int, expireEvery int) (rounds int) {
 	for rounds = 0; rounds < maxRounds; rounds++ {
+		if node, ok := s.restartAt[rounds]; ok {
+			// a node restart between rounds: volatile state gone, digests reloaded from disk
+			delete(s.restartAt, rounds)
+			s.exec(&vOp{Op: "restart", N: node})
+		}
 		if s.allEqual() && len(s.pending) == 0 {
 			return rounds
 		}
